@@ -104,6 +104,55 @@ def merge_histories(n, seed):
     return len(meta), fails
 
 
+def direct_renames(n, seed):
+    """`replace_jump_targets` called directly on a branching block with a good table: same number of targets, new
+    names that may coincide with old names at *other* positions (shifts, swaps); the table must still name exactly
+    the successors"""
+    common.import_repo()
+    from numba_scfg.core.datastructures import basic_block as bb
+    from numba_scfg.core.datastructures.scfg import SCFG
+    rng = random.Random(seed * 419 + 66)
+    pool = ["a", "b", "c", "d", "e", "f"]
+    drv = common.Driver()
+    lines, meta = [], []
+    for _ in range(n):
+        k = rng.randint(2, 4)
+        old = rng.sample(pool, k)
+        new = list(old)
+        how = rng.random()
+        if how < 0.35:                                   # shift: position i takes the old name of position i+1
+            new = old[1:] + [rng.choice([x for x in pool if x not in old])]
+        elif how < 0.6:                                  # swap two positions
+            i, j = rng.sample(range(k), 2)
+            new[i], new[j] = new[j], new[i]
+        else:                                            # rename some positions to names not in use
+            free = [x for x in pool if x not in old]
+            rng.shuffle(free)
+            for i in range(k):
+                if free and rng.random() < 0.6:
+                    new[i] = free.pop()
+        vals = list(range(k + rng.randint(0, 2)))
+        table = {v: old[v % k] for v in vals}
+        mk = rng.choice([bb.SyntheticHead, bb.SyntheticExitBranch])
+        br = mk(name="br", _jump_targets=tuple(old), backedges=(), variable="v", branch_value_table=dict(table))
+        graph = {x: bb.BasicBlock(name=x) for x in pool}
+        graph["br"] = br
+        g = SCFG(graph)
+        top, before = export.export(g)
+        try:
+            g.graph["br"] = br.replace_jump_targets(tuple(new))
+        except Exception as e:  # noqa: BLE001
+            meta.append(("direct-rename", ("replace_jump_targets", old, new, type(e).__name__), before, "raised"))
+            lines += [f"G {top} {before}", f"H {top} {before}", "SPEC no_such_check"]
+            continue
+        _, after = export.export(g)
+        lines += [f"G {top} {before}", f"H {top} {after}", "SPEC tables_preserved"]
+        meta.append(("direct-rename", ("replace_jump_targets", old, new), before, after))
+    rep = drv.run(lines) if lines else []
+    fails = [m for k, m in enumerate(meta) if rep[3 * k + 2] != "1"]
+    return len(meta), fails
+
+
 def twin_runs(ctx):
     """A second graph obtained from the first one (dictionary write/read, or a copy of its block
     table) holds the same value-table objects unless somebody copies them: restructuring the first
@@ -157,6 +206,10 @@ def run(ctx):
     res["coverage"]["renaming_failures"] = len(fails)
     res["coverage"]["rule"] += "; plus random edit operations (insert_block, insert_block_and_control_blocks, join_returns, " \
                                "join_tails_and_exits) on restructured real hierarchies, table agreement of pre-existing branching blocks re-checked after each"
+    n3, fails3 = direct_renames((400 * common.boost()) if ctx["tier"] == "quick" else 10000, ctx["seed"])
+    res["coverage"]["direct_same_length_renames"] = n3
+    res["coverage"]["renaming_failures"] += len(fails3)
+    fails = fails + fails3
     n2, fails2 = merge_histories((300 * common.boost()) if ctx["tier"] == "quick" else 8000, ctx["seed"])
     res["coverage"]["merge_after_control_block_histories"] = n2
     res["coverage"]["renaming_failures"] += len(fails2)
